@@ -1062,3 +1062,11 @@ func NewAlwaysInstr(p *Program, pred func(ssa.Instruction) bool) func(ssa.Instru
 	a := p.NewAlways(pred)
 	return a.Instr
 }
+
+// derefType: the element type of a pointer type (t itself otherwise).
+func derefType(t types.Type) types.Type {
+	if p, ok := t.Underlying().(*types.Pointer); ok {
+		return p.Elem()
+	}
+	return t
+}
